@@ -33,13 +33,16 @@ def _join(a, b):
 
 
 class Intervals:
-    def __init__(self, fn, tracked, use=None, report=None):
+    def __init__(self, fn, tracked, use=None, report=None, members=None, oracle=None):
         """tracked: {var id: bits}; use(node) -> tracked var ids consumed by a call node (their wrap taint is recorded);
         report: the var ids whose wraps are recorded (default: all tracked; the others only carry bounds).
         `X.size()` / `X.length()` of a container expression X is a pseudo-variable "len:<X>" bounded by resize and tests."""
         self.fn = fn
         self.tracked = tracked
         self.report = set(tracked) if report is None else set(report)
+        self.members = dict(members or {})  # field name of *this -> bits: tracked as "m:<name>"
+        self.oracle = oracle  # oracle(cond node) -> True/False/None: conditions decided outside (version partial evaluation)
+        self.exit_envs = []  # environments at every return / at the end of the body
         self.use = use
         self.assume = {}  # rendering of a stable boolean atom -> assumed truth (one run per valuation, see run_all_valuations)
         self.tainted_uses = []  # (use node, var id, index into self.wraps)
@@ -49,6 +52,8 @@ class Intervals:
     # ------------------------------------------------------------ expressions
     def rng(self, vid):
         if isinstance(vid, str):
+            if vid.startswith("m:"):
+                return (0, (1 << self.members[vid[2:]]) - 1)
             return (0, INF)
         return (0, (1 << self.tracked[vid]) - 1)
 
@@ -59,6 +64,9 @@ class Intervals:
             return None
         if e["k"] == "Ref" and e.get("id") in self.tracked:
             return e["id"]
+        if e["k"] == "Member" and e.get("mk", "field") == "field" and e["name"] in self.members and \
+                (e.get("base") is None or (is_node(e.get("base")) and e["base"]["k"] == "This")):
+            return "m:" + e["name"]
         if e["k"] == "Call" and e.get("short") in ("size", "length") and is_node(e.get("recv")) and not e.get("args"):
             return "len:" + show(e["recv"])
         return None
@@ -73,6 +81,10 @@ class Intervals:
             return (e["val"], e["val"])
         if k == "Ref" and e.get("id") in self.tracked:
             return env.get(e["id"], self.rng(e["id"]))
+        if k == "Member" and self.members:
+            mk = self.key(e)
+            if mk is not None:
+                return env.get(mk, self.rng(mk))
         if k == "Cast":
             inner = self.ev(e["e"], env)
             bits = type_bits(e.get("ct") or e.get("t"))
@@ -106,6 +118,10 @@ class Intervals:
         """env refined by `c` being `truth`; None = infeasible"""
         if env is None or not is_node(c):
             return env
+        if self.oracle is not None:
+            o = self.oracle(c)
+            if o is not None:
+                return env if bool(o) == truth else None
         k = c["k"]
         if k in ("Paren", "Cast"):
             return self.refine(c["e"], env, truth)
@@ -172,7 +188,17 @@ class Intervals:
             if k == "Ref" and n.get("id") in self.tracked:
                 self.at[id(n)] = env.get(n["id"], self.rng(n["id"]))
             tgt, res = None, None
-            if k == "Assign":
+            if k == "Assign" and self.members and is_node(n["l"]) and n["l"]["k"] == "Member" and self.key(n["l"]) is not None:
+                mk = self.key(n["l"])
+                lo_, hi_ = self.rng(mk)
+                if n["op"] == "=":
+                    v = self.ev(n["r"], env)
+                    env = dict(env)
+                    env[mk] = v if v is not None and v[0] >= lo_ and v[1] <= hi_ else (lo_, hi_)
+                else:
+                    env = dict(env)
+                    env[mk] = (lo_, hi_)
+            elif k == "Assign":
                 tgt = n["l"]
                 if is_node(tgt) and tgt["k"] == "Ref" and tgt.get("id") in self.tracked:
                     cur = env.get(tgt["id"], self.rng(tgt["id"]))
@@ -259,7 +285,9 @@ class Intervals:
         for bits in range(1 << len(atoms)):
             self.assume = {a: bool(bits >> i & 1) for i, a in enumerate(atoms)}
             self.wraps, self.tainted_uses = [], []
-            self.stmt(self.fn.get("body"), {})
+            end = self.stmt(self.fn.get("body"), {})
+            if end is not None:
+                self.exit_envs.append((end, None))
             remap = {}
             for i, w in enumerate(self.wraps):
                 key = id(w[0])
@@ -366,7 +394,9 @@ class Intervals:
                 self.effects(s["inc"], out)
             return self.refine(c, head, False) if is_node(c) else head
         if k in ("Return", "Throw"):
-            self.effects(s.get("e"), env)
+            env = self.effects(s.get("e"), env)
+            if k == "Return" and env is not None:
+                self.exit_envs.append((env, self.ev(s["e"], env) if is_node(s.get("e")) else None))
             return None
         if k in ("Break", "Continue"):
             return None  # sound enough here: the loop exit state is the widened head
